@@ -416,9 +416,9 @@ theorem star_lexes_by_state (f : Nat) (R : List Char) (acc : List RTok) :
 /-- the per-token hypothesis discharged for EVERY atom kind, by a decidable condition on the atom and the lexer
 state it is read in (`atomLexOK`): booleans; references and single-quoted strings not ending in a backslash;
 triple-quoted strings whose content does not run the scanner's quote counter down (`tripleSafe`); decimal
-integers (a negative one is TWO tokens: unary minus and the number), octal integers ≥ 0, floats `digits.digits`;
-durations printed from their value (≥ 0, a multiple of 1us: every unit w d h m s ms u) or with their literal kept
-(digits and any unit the lexer knows, incl. µ); a regex – in state false only – whose literal starts with an
+integers, octal integers ≥ 0, floats `digits.digits`; durations printed from their value (a multiple of 1us:
+every unit w d h m s ms u) or with their literal kept (digits and any unit the lexer knows, incl. µ); a NEGATIVE
+integer, float or duration (built in code) is TWO tokens, unary minus and the absolute value; a regex – in state false only – whose literal starts with an
 ASCII character other than `/` and keeps every `/` escaped. -/
 theorem atom_lexes (b : Bool) (a : Atom) (h : atomLexOK b a = true) : AtomLexIn b a :=
   atomLexOK_sound b a h
@@ -427,7 +427,13 @@ example : atomLexOK true (.num (.int 10 (-42))) = true ∧ atomLexOK true (.num 
     atomLexOK true (.num (.flt "100.125")) = true ∧ atomLexOK true (.dur 5400000000000 "") = true ∧
     atomLexOK true (.dur 9000 "9µ") = true ∧ atomLexOK true (.str "a\\" false) = true ∧
     atomLexOK true (.str "say 'hi' there" true) = true ∧ atomLexOK false (.rx "a/b" "") = true ∧
-    atomLexOK true (.rx "a/b" "") = false := by decide
+    atomLexOK true (.rx "a/b" "") = false ∧ atomLexOK true (.num (.flt "-2.5")) = true ∧
+    atomLexOK true (.dur (-60000000000) "") = true := by decide
+
+/-- a negative duration is printed as `-` and the text of its absolute value (so it is read as unary minus) -/
+theorem negative_duration_text (d : Int) (h : d < 0) :
+    (formatDuration d).toList = '-' :: (formatDuration (-d)).toList :=
+  formatDuration_neg d h
 
 /-- `lexer_reads_formatted` for all atom kinds and both states: for every tree that passes the decidable,
 state-threaded check `lexOK` (each operand token checked in the state the lexer is in when it reaches it: the
